@@ -13,7 +13,7 @@ TRUSTED = [
     "the log hypotheses TextOk / DisjointLocs / RefStable / NamedRefs / RefsValid are evaluated on every real log by the check, not proved for the indexer",
 ]
 RULE = ("workspaces: seed programs, grammar-derived sentences over a small identifier pool (so that names resolve), their "
-        "token mutations, two-file include workspaces, corpus files; queries at start/inside/end of identifier tokens and "
+        "token mutations, two-file include workspaces, include graphs with cycles through the root/self-includes/diamonds over a shared name pool, corpus files; queries at start/inside/end of identifier tokens and "
         "between tokens; a workspace is non-trivial if its op log contains at least one reference")
 FINISH = dict(level="proof", trusted_base=TRUSTED, rule=RULE)
 
@@ -50,6 +50,24 @@ def workspaces(ck):
         b = gen.render(rng, gen.sentence(rng, budget=6), "spaced")
         c = gen.render(rng, gen.sentence(rng, budget=4), "spaced")
         out.append(({"/main.td": 'include "inc.td"\n' + a + '\ninclude "inc.td"\n', "/inc.td": 'include "sub/c.td"\n' + PRELUDE + b, "/sub/c.td": c}, "/main.td"))
+    # include graphs with cycles (through the root too), self-includes and diamonds; the same few names are declared and
+    # used before and after the include statements of every file
+    frags = ["class A;", "class B : A;", "class A { int f = v; }", "defvar v = 1;", "defvar w = v;", "def d : A;", "def e : B { int g = v; }",
+             "class B<int v> : A { int h = v; }", "defvar v = w;", "multiclass A { def x : B; }", "defm m : A;", "def d;", "class d : d;"]
+    names = ["/main.td", "/sub.td", "/dir/c.td"]
+    for _ in range(200 if quick else 3000):
+        nfiles = rng.choice([1, 2, 2, 3])
+        ws = {}
+        for i in range(nfiles):
+            parts = [rng.choice(frags) for _ in range(rng.randint(1, 4))]
+            for _ in range(rng.randint(1, 2)):
+                tgt = rng.choice(names[:nfiles])
+                rel = {"/main.td": "main.td", "/sub.td": "sub.td", "/dir/c.td": "dir/c.td"}[tgt]
+                if names[i] == "/dir/c.td":
+                    rel = {"/main.td": "../main.td", "/sub.td": "../sub.td", "/dir/c.td": "c.td"}[tgt]
+                parts.insert(rng.randint(0, len(parts)), 'include "%s"' % rel)
+            ws[names[i]] = " ".join(parts) + "\n"
+        out.append((ws, "/main.td"))
     files = gen.corpus_files()
     for name, t in (files[:6] if quick else files):
         if len(t) < (40000 if quick else 400000):
@@ -186,7 +204,7 @@ def run(ck):
         # oracle: the four clauses on the implementation
         tok_at = {}
         for p in paths:
-            for a, b, t in ids.get(p) or []:
+            for a, b, t in (ids.get(p) if isinstance(ids.get(p), list) else []):
                 tok_at[(p, a, b)] = t
         goto = {}
         refs = {}
